@@ -7,7 +7,7 @@ the raw 35-byte Tor addresses of the input accepted by the real `OnionAddrV3::fr
 (`g` = the bytes were produced by `wire::serialize` from a constructed message) is for the harness oracle.
 
 Output: `ok <re-encoding> lossy=<->|p|a>` (`p`: a ping/pong padding byte was not zero; `a`: the user agent of
-a node announcement was missing or cut short and defaulted; the re-encoding is `!` when `wire::serialize`
+a node announcement was missing and defaulted; the re-encoding is `!` when `wire::serialize`
 would panic), `incomplete` (EOF error), `invalid` (any other error), `panic:<site>`. -/
 namespace HeartwoodModel.Driver.C15
 open HeartwoodModel.Codec HeartwoodModel.Wire HeartwoodModel.Driver.Util
